@@ -1,19 +1,123 @@
 (* C01 - Replaying the native (inotify) event stream reproduces the real directory tree.
    Only statements; every proof is `exact <lemma>`.
-   replay / tree_of / in_scope (Proofs/ReplayProofs.v) are harness/pipeprops.py's replay / scope_listing / in_scope
-   as Gallina functions; trees are compared as finite maps (Python dicts).  The invariant the proofs rest on is the
-   cover invariant of C02 (RSync, Proofs/CoverProofs.v). *)
-Require Import WD.Base.Prelude WD.Base.BStr WD.Model.SubEvents WD.Model.Emitter WD.Model.Fs WD.Model.Reader
-               WD.Model.Pipeline WD.Proofs.CoverProofs WD.Proofs.ReplayProofs.
 
+   [replay] (Proofs/ReplayProofs.v) is harness/pipeprops.py `replay` as a Gallina function over association lists
+   (Python dicts) - INCLUDING the current rule for Moved events: a Moved event, synthetic or not, whose source is not
+   a key of the replayed tree creates its destination (`if src not in tree: tree[dest] = isdir`), and a Moved event
+   whose source is present is applied as a move of the whole sub-tree, synthetic or not.  [in_scope] is
+   Contract.in_scope (below the root; non-recursive: a direct child) which agrees with pipeprops.in_scope on the paths
+   of a well-formed tree.  Trees are compared as finite maps ([tree_of w] = scope_listing).
+   [TInv rec root t w]: the keys of t are distinct and t, as a finite map, is the tree of w in scope.
+   The reader/kernel invariant is C02's RSync (Proofs/CoverProofs.v); the event lists come from Contract.deliver_one =
+   read the whole kernel queue in one batch, group it (a MOVED_FROM/MOVED_TO pair of one cookie is one item:
+   Contract.group_batch = Grouping.pair_in_grouped on one batch), emit every item; the per-operation contract lemmas
+   of C03 (Proofs/ContractProofs.v) are reused: replay only looks at the first structural event of each contract. *)
+Require Import WD.Base.Prelude WD.Base.BStr WD.Model.SubEvents WD.Model.Emitter WD.Model.Fs WD.Model.Reader
+               WD.Model.Pipeline WD.Model.Contract WD.Proofs.CoverProofs WD.Proofs.ReplayProofs WD.Proofs.ReplayPipeProofs.
+
+(* ---- the association-list replay has the obvious pointwise meaning, and keeps keys distinct *)
+Theorem C01_replay_semantics : forall recursive root t e, NoDup (map fst t) ->
+  NoDup (map fst (replay1 recursive root t e)) /\
+  forall x, alookup beqb x (replay1 recursive root t e) = freplay1 recursive root (fun y => alookup beqb y t) e x.
+Proof. intros recursive root t e H. split; [now apply replay1_nodup | exact (replay1_sem recursive root t e H)]. Qed.
+Print Assumptions C01_replay_semantics.
+
+(* ---- what each contract (C03) does to the real tree: its first event turns the tree before the operation into the
+   tree after it, every event of the contract leaves the tree after it unchanged *)
+Theorem C01_contract_replay : forall C full w o w', wf_fs w -> c01_op C w o -> apply_op w o = Some w' ->
+  ctr_ok (c_recursive C) (c_root C) (tl (c_recursive C) (c_root C) w) (tl (c_recursive C) (c_root C) w')
+         (contract (c_recursive C) full (c_root C) (w_fs w) o).
+Proof. exact ctr_ok_covered. Qed.
+Print Assumptions C01_contract_replay.
+
+(* ---- the one-operation replay law.  c01_op = C02's covered_op minus the directory renames that are not inside the
+   tree of a recursive watch (Touch, Write, Chmod of a file or a directory other
+   than the root, Unlink, Mkdir, Rmdir, Rename of a file - inside / out = deleted / in = created / replacing a file,
+   normal and full emitter -, Rename of a directory inside the tree of a recursive watch to a fresh name = Moved +
+   one synthetic Moved per descendant). *)
+Theorem C01_replay_step : forall C full w k r o w' t, c_faults C = [] -> c_mask C = WATCHDOG_ALL ->
+  RSync C w k r -> c01_op C w o -> apply_op w o = Some w' -> TInv (c_recursive C) (c_root C) t w ->
+  let k1 := kernel_op k (w_fs w) o in
+  exists r' k' raws,
+    read_batch C (w_fs w') (r, drainq k1, []) (k_queue k1) = Done (r', k', raws) /\ RSync C w' k' r' /\
+    deliver_one C full w k r o = Some (delivered C full w' raws) /\
+    TInv (c_recursive C) (c_root C) (replay (c_recursive C) (c_root C) t (delivered C full w' raws)) w'.
+Proof. exact replay_step. Qed.
+Print Assumptions C01_replay_step.
+
+(* ---- sequential histories of any length over trees of any size: every operation is followed by a read of the
+   whole kernel queue and the emission of the grouped items ([drun] accumulates the stream) *)
+Theorem C01_sequential_partial : forall C full, c_faults C = [] -> c_mask C = WATCHDOG_ALL ->
+  forall ops w k r t0 out, RSync C w k r ->
+  TInv (c_recursive C) (c_root C) (replay (c_recursive C) (c_root C) t0 out) w -> ops_c01 C w ops ->
+  exists w' k' r' out', drun C full w k r ops out = Some (w', k', r', out') /\ RSync C w' k' r' /\
+    TInv (c_recursive C) (c_root C) (replay (c_recursive C) (c_root C) t0 out') w'.
+Proof. exact replay_sequential. Qed.
+Print Assumptions C01_sequential_partial.
+
+(* from a fresh watch: replaying the whole stream on the initial tree gives the final tree *)
+Theorem C01_from_start_partial : forall C full ops w, c_faults C = [] -> c_mask C = WATCHDOG_ALL -> wf_fs w ->
+  fisdir (c_root C) (w_fs w) = true -> ops_c01 C w ops ->
+  exists r0 k0 w' k' r' out, construct C kinit (w_fs w) = Some (r0, k0) /\
+    drun C full w k0 r0 ops [] = Some (w', k', r', out) /\
+    forall x, alookup beqb x (replay (c_recursive C) (c_root C) (tree_of (c_recursive C) (c_root C) w) out)
+            = alookup beqb x (tree_of (c_recursive C) (c_root C) w').
+Proof. exact replay_from_start. Qed.
+Print Assumptions C01_from_start_partial.
+
+(* ---- the same block on the Pipeline model, through DelayQueue and Grouping (by C03_pipeline_tie): from an idle
+   pipeline (ContractProofs.buffer_idle: nothing queued, nothing being grouped, consumer outside get()) the history
+   AOp o; ARead (whole kernel queue); ATick delay; AEmit x nit  appends to p_out a stream whose replay is the new tree *)
+Theorem C01_block_pipeline : forall P s o w' t0, let C := pc_reader P in
+  c_faults C = [] -> c_mask C = WATCHDOG_ALL -> pc_filter P = None ->
+  ContractProofs.buffer_idle (p_buf s) -> p_stopped s = false ->
+  (forall id, In id (map fst (p_tbl s)) -> (id < p_next s)%N) ->
+  RSync C (p_world s) (p_k s) (p_r s) -> c01_op C (p_world s) o -> apply_op (p_world s) o = Some w' ->
+  TInv (c_recursive C) (c_root C) (replay (c_recursive C) (c_root C) t0 (p_out s)) (p_world s) ->
+  exists nit s' obs, prun P s (ContractProofs.tie_history P s o nit) [] = Done (s', obs) /\
+    TInv (c_recursive C) (c_root C) (replay (c_recursive C) (c_root C) t0 (p_out s')) w'.
+Proof. exact replay_block. Qed.
+Print Assumptions C01_block_pipeline.
+
+(* ---- sequences of blocks on the Pipeline model, of any length: the history is one block
+   AOp o; ARead (whole kernel queue); ATick delay; AEmit x nit   per applicable operation ([block_hist]); after every
+   block the pipeline is synchronised and idle again ([PSync]: RSync, nothing buffered, reader thread and emitter alive -
+   no raw event of a covered operation announces the end of the root), and the replay of p_out is the tree *)
+Theorem C01_sequential_pipeline_partial : forall P t0, let C := pc_reader P in
+  c_faults C = [] -> c_mask C = WATCHDOG_ALL -> pc_filter P = None ->
+  forall ops s, PSync P s -> ops_c01 C (p_world s) ops ->
+  TInv (c_recursive C) (c_root C) (replay (c_recursive C) (c_root C) t0 (p_out s)) (p_world s) ->
+  exists h s' obs, block_hist P s ops h /\ prun P s h [] = Done (s', obs) /\ PSync P s' /\
+    TInv (c_recursive C) (c_root C) (replay (c_recursive C) (c_root C) t0 (p_out s')) (p_world s').
+Proof. exact blocks_replay. Qed.
+Print Assumptions C01_sequential_pipeline_partial.
+
+Theorem C01_pipeline_from_start_partial : forall P ops w s0, let C := pc_reader P in
+  c_faults C = [] -> c_mask C = WATCHDOG_ALL -> pc_filter P = None -> wf_fs w -> fisdir (c_root C) (w_fs w) = true ->
+  pinit P w = Some s0 -> ops_c01 C w ops ->
+  exists h s' obs, block_hist P s0 ops h /\ prun P s0 h [] = Done (s', obs) /\ PSync P s' /\
+    forall x, alookup beqb x (replay (c_recursive C) (c_root C) (tree_of (c_recursive C) (c_root C) w) (p_out s'))
+            = alookup beqb x (tree_of (c_recursive C) (c_root C) (p_world s')).
+Proof. exact replay_pipeline_from_start. Qed.
+Print Assumptions C01_pipeline_from_start_partial.
+
+(* ================================================================== the full statements *)
 Definition repaired (C : cfg) : Prop :=
   c_faults C = [] /\ c_fix_ignored C = true /\ c_fix_movein C = true /\ c_fix_simulate C = true /\ c_mask C = WATCHDOG_ALL.
 
 Definition quiescent (s : pstate) : Prop :=
   k_queue (p_k s) = [] /\ DelayQueue.q (fst (p_buf s)) = [] /\ buf_ready (p_buf s).
 
-(* FULL statement, sequential layer (DESIGN.md C01 layer 1): every operation is followed by a full drain
-   (ARead of the whole kernel queue, then AEmit / ATick until the delay queue is empty). *)
+Definition tree_eq (a b : tree) : Prop := forall p, alookup beqb p a = alookup beqb p b.
+
+(* sequential layer (DESIGN.md C01 layer 1): every operation on a normal path that leaves the root alone, each
+   followed by a full drain of the Pipeline model (ARead of the whole kernel queue, then AEmit / ATick until the
+   delay queue is empty).
+   MISSING relative to C01_sequential_partial: (a) the operation kinds outside covered_op - a directory moved into the
+   tree (synthetic created events for its content), a directory moved out, a directory renamed over an empty directory,
+   directory renames under a non-recursive watch or entirely outside the tree (C02 covers their watch state, their
+   replay is not proved), Chmod of the root; (b) [seq_run]'s drain (AEmit / ATick driven by the queue) instead of the
+   fixed block shape of C01_sequential_pipeline_partial. *)
 Definition C01_sequential_full : Prop :=
   forall P, repaired (pc_reader P) -> pc_filter P = None ->
   forall w0 s0, wf_fs w0 -> fisdir (c_root (pc_reader P)) (w_fs w0) = true -> pinit P w0 = Some s0 ->
@@ -23,9 +127,12 @@ Definition C01_sequential_full : Prop :=
                   (tree_of (c_recursive (pc_reader P)) (c_root (pc_reader P)) w0) (p_out s))
           (tree_of (c_recursive (pc_reader P)) (c_root (pc_reader P)) (p_world s)).
 
-(* FULL statement (DESIGN.md C01): any history of the gated driver's actions that respects the directory pacing
+(* the property itself (DESIGN.md C01): any history of the gated driver's actions that respects the directory pacing
    condition; [paced] = no operation touches the contents or re-uses a name of a directory that was created, renamed,
-   moved or removed since the pipeline was last quiescent (a directory may be renamed again right after it arrived). *)
+   moved or removed since the pipeline was last quiescent (a directory may be renamed again right after it arrived).
+   MISSING relative to the sequential layer: bursts (several operations between two reads), arbitrary read cuts
+   (ARead k with k smaller than the queue: a MOVED_FROM and its MOVED_TO in different reads are paired through the
+   delay queue, or degrade to deleted + created), ATicks at arbitrary points. *)
 Definition dir_op_paths (t : fs) (o : op) : list bytes :=
   match o with
   | Mkdir p | Rmdir p => [p]
@@ -61,34 +168,10 @@ Definition C01_replay_full : Prop :=
                   (tree_of (c_recursive (pc_reader P)) (c_root (pc_reader P)) w0) (p_out s))
           (tree_of (c_recursive (pc_reader P)) (c_root (pc_reader P)) (p_world s)).
 
-(* PROVED PART (sequential layer, one operation kind, reader + emitter composition instead of the drain through the
-   delay queue): from a synchronised state whose replayed stream equals the tree, after Touch of a fresh name in ANY
-   directory in scope and one read of the whole kernel queue, the reader is synchronised again and the replay of
-   (old stream ++ emit_single of every raw event of the read) IS the new tree.  Extra hypotheses spelled out: the
-   operation is a Touch; events are translated one by one (no pairing is involved for a Touch); the delay queue is
-   bypassed. *)
-Theorem C01_touch_partial : forall C w k r de name w' full content t0 out,
-  RSync C w k r -> c_mask C = WATCHDOG_ALL ->
-  In de (w_fs w) -> f_dir de = true -> scope C (f_path de) -> valid_name name = true ->
-  let p := f_path de ++ sep :: name in
-  apply_op w (Touch p) = Some w' ->
-  replay (c_recursive C) (c_root C) t0 out = tree_of (c_recursive C) (c_root C) w ->
-  let k1 := kernel_op k (w_fs w) (Touch p) in
-  exists evs, read_batch C (w_fs w') (r, drainq k1, []) (k_queue k1) = Done (r, drainq k1, evs) /\
-    RSync C w' (drainq k1) r /\
-    replay (c_recursive C) (c_root C) t0 (out ++ emit_singles C full content evs) = tree_of (c_recursive C) (c_root C) w'.
-Proof. exact C01_touch_reader_emitter. Qed.
-Print Assumptions C01_touch_partial.
+(* ================================================================== non-vacuity *)
 
-(* the reader's watch state after every proved operation kind is again synchronised (C02_cover_step): the part of the
-   C01 invariant `Sync` that does not mention the stream *)
-Theorem C01_sync_preserved : forall C, c_faults C = [] -> forall ops, mask_ok C -> forall w k r,
-  RSync C w k r -> ops_covered C w ops ->
-  exists w' k' r', rrun C w k r ops = Some (w', k', r') /\ RSync C w' k' r'.
-Proof. exact cover_sequential. Qed.
-Print Assumptions C01_sync_preserved.
-
-(* ---- non-vacuity: the replay function on a concrete stream (created, moved with a sub-tree, deleted) *)
+(* the replay function on a concrete stream: created, a directory moved with its sub-tree (the synthetic event of the
+   descendant finds its source gone and only confirms the destination), an event out of scope, deleted *)
 Example C01_replay_example :
   let R := pR in
   replay true R []
@@ -96,12 +179,63 @@ Example C01_replay_example :
       mk DirMoved (sub R 97) (sub R 98);
       {| ev_cls := FileMoved; ev_src := sub (sub R 97) 102; ev_dest := sub (sub R 98) 102; ev_synth := true |};
       mk FileCreated (sub pO 120) [];
+      mk FileMoved (sub R 120) (sub R 121);                      (* source never announced: the destination exists now *)
       mk FileDeleted (sub (sub R 98) 102) [] ]
-  = [(sub R 98, true)].
+  = [(sub R 98, true); (sub R 121, false)].
 Proof. vm_compute. reflexivity. Qed.
 
-Example C01_touch_nonvacuous :
-  exists r0 k0, construct (cfgx true true) kinit (w_fs w0) = Some (r0, k0) /\
-    apply_op w0 (Touch (pR ++ sep :: [102%N])) <> None /\ scope (cfgx true true) pR /\ valid_name [102%N] = true /\
-    replay true pR [] [] = tree_of true pR w0.
-Proof. eexists _, _. split; [vm_compute; reflexivity|]. repeat split; try (vm_compute; discriminate); try reflexivity. now left. Qed.
+(* a history through every constructor of c01_op, run on the model from Inotify.__init__ on: the replay of the
+   delivered stream IS the final tree (both computed) *)
+Definition c01_ops : list op :=
+  [Mkdir (sub pR 97); Mkdir (sub (sub pR 97) 99); Touch (sub (sub pR 97) 102); Write (sub (sub pR 97) 102);
+   Chmod (sub (sub pR 97) 102); Chmod (sub pR 97);
+   Rename (sub pR 97) (sub pR 98);                                   (* directory with a sub-directory and a file *)
+   Rename (sub (sub pR 98) 102) (sub pR 102);                        (* file, inside *)
+   Rename (sub pR 102) (sub pO 102);                                 (* file, out *)
+   Rename (sub pO 102) (sub (sub pR 98) 103);                        (* file, in *)
+   Unlink (sub (sub pR 98) 103); Rmdir (sub (sub pR 98) 99); Rmdir (sub pR 98)].
+
+Example C01_ops_nonvacuous : ops_c01 (cfgx true true) w0 c01_ops.
+Proof.
+  assert (GR : gpath pR) by (split; [discriminate | reflexivity]).
+  assert (GO : gpath pO) by (split; [discriminate | reflexivity]).
+  assert (Na : forall n, valid_name [n] = true -> npath (sub pR n)) by (intros; now apply npath_sub).
+  assert (No : forall n, valid_name [n] = true -> npath (sub pO n)) by (intros; now apply npath_sub).
+  assert (Nb : forall m n, valid_name [m] = true -> valid_name [n] = true -> npath (sub (sub pR m) n)).
+  { intros. apply npath_sub; [apply npath_gpath; now apply Na | assumption]. }
+  unfold c01_ops.
+  eapply ops_c01_cons; [vm_compute; reflexivity | split; [apply co_mkdir; now apply Na | exact I] |].
+  eapply ops_c01_cons; [vm_compute; reflexivity | split; [apply co_mkdir; now apply Nb | exact I] |].
+  eapply ops_c01_cons; [vm_compute; reflexivity | split; [apply co_quiet; [exact I | now apply Nb] | exact I] |].
+  eapply ops_c01_cons; [vm_compute; reflexivity | split; [apply co_quiet; [exact I | now apply Nb] | exact I] |].
+  eapply ops_c01_cons; [vm_compute; reflexivity | split; [apply co_quiet; [exact I | now apply Nb] | vm_compute; discriminate] |].
+  eapply ops_c01_cons; [vm_compute; reflexivity | split; [apply co_quiet; [exact I | now apply Na] | vm_compute; discriminate] |].
+  eapply ops_c01_cons; [vm_compute; reflexivity | split; [|intros _; split; [right; vm_compute; reflexivity | split; [reflexivity | vm_compute; reflexivity]]] |].
+  { eapply co_rename_dir; try (now apply Na); try reflexivity; try (vm_compute; reflexivity);
+      try (right; vm_compute; reflexivity); try (vm_compute; discriminate). }
+  eapply ops_c01_cons; [vm_compute; reflexivity | split; [|intros H; vm_compute in H; discriminate] |].
+  { eapply co_rename_file; try (now apply Na); try (now apply Nb); try (vm_compute; reflexivity). }
+  eapply ops_c01_cons; [vm_compute; reflexivity | split; [|intros H; vm_compute in H; discriminate] |].
+  { eapply co_rename_file; try (now apply Na); try (now apply No); try (vm_compute; reflexivity). }
+  eapply ops_c01_cons; [vm_compute; reflexivity | split; [|intros H; vm_compute in H; discriminate] |].
+  { eapply co_rename_file; try (now apply No); try (now apply Nb); try (vm_compute; reflexivity). }
+  eapply ops_c01_cons; [vm_compute; reflexivity | split; [apply co_quiet; [exact I | now apply Nb] | exact I] |].
+  eapply ops_c01_cons; [vm_compute; reflexivity | split; [apply co_rmdir; [now apply Nb | vm_compute; discriminate] | exact I] |].
+  eapply ops_c01_cons; [vm_compute; reflexivity | split; [apply co_rmdir; [now apply Na | vm_compute; discriminate] | exact I] |].
+  exact I.
+Qed.
+
+Example C01_sequential_example :
+  exists r0 k0 w' k' r' out, construct (cfgx true true) kinit (w_fs w0) = Some (r0, k0) /\
+    drun (cfgx true true) false w0 k0 r0 (firstn 10 c01_ops) [] = Some (w', k', r', out) /\
+    length out = 28 /\
+    tree_of true pR w' = [(sub pR 98, true); (sub (sub pR 98) 99, true); (sub (sub pR 98) 103, false)] /\
+    same_tree (replay true pR (tree_of true pR w0) out) (tree_of true pR w') = true.
+Proof. eexists _, _, _, _, _, _. split; [vm_compute; reflexivity|]. split; [vm_compute; reflexivity|]. vm_compute. auto. Qed.
+
+(* the Pipeline model run block by block (6 AEmit per block) on the first ten operations of c01_ops *)
+Example C01_pipeline_example :
+  exists s0 s', pinit (Px true) w0 = Some s0 /\ run_blocks (Px true) 6 s0 (firstn 10 c01_ops) = Some s' /\
+    p_stopped s' = false /\ length (p_out s') = 28 /\
+    same_tree (replay true pR (tree_of true pR w0) (p_out s')) (tree_of true pR (p_world s')) = true.
+Proof. eexists _, _. split; [vm_compute; reflexivity|]. split; [vm_compute; reflexivity|]. vm_compute. auto. Qed.
